@@ -303,6 +303,14 @@ def base_case(draw, name, max_len=8, max_src=4, steps="full", min_len=0, min_src
     if v:
         params["v"] = v
 
+    if name not in ("iter_sentinel", "dict", "starmap") and profile in ("item", "truthy", "num") and draw(st.integers(0, 5)) == 0:
+        # the identical object occurs twice in a row in one source
+        cands = [s_ for s_ in srcs if s_.get("alias") is None and s_["items"]]
+        if cands:
+            s_ = cands[draw(st.integers(0, len(cands) - 1))]
+            s_["items"].insert(draw(st.integers(1, len(s_["items"]))), ["same"])
+            total += 1
+            longest = max(longest, len(s_["items"]))
     # consumer plan
     if tool.kind == "agg":
         plan = []
